@@ -96,8 +96,19 @@ static void wfx_run(const RE_AST* ast, ASTCB* st, const char* ident)
   if (yr_re_ast_emit_code((RE_AST*) ast, arena, false) != ERROR_SUCCESS) { yr_arena_release(arena); return; }
   yr_arena_off_t b0 = yr_arena_get_current_offset(arena, YR_RE_CODE_SECTION);
   if (yr_re_ast_emit_code((RE_AST*) ast, arena, true) != ERROR_SUCCESS) { yr_arena_release(arena); return; }
+  yr_arena_off_t e0 = yr_arena_get_current_offset(arena, YR_RE_CODE_SECTION);
   const uint8_t* fcode = (const uint8_t*) yr_arena_get_ptr(arena, YR_RE_CODE_SECTION, f0);
   const uint8_t* bcode = (const uint8_t*) yr_arena_get_ptr(arena, YR_RE_CODE_SECTION, b0);
+  if (st->want_wfx == 2)
+  {
+    // wcode: the bytes yr_re_ast_emit_code wrote (forward code, backward code), for the Lean emit model
+    emit("%s%s:C:", st->first ? "" : ";", ident); st->first = 0;
+    for (const uint8_t* p = fcode; p < bcode; p++) emit("%02x", *p);
+    emit(":");
+    for (const uint8_t* p = bcode; p < fcode + (e0 - f0); p++) emit("%02x", *p);
+    yr_arena_release(arena);
+    return;
+  }
   int fast = (ast->flags & RE_FLAGS_FAST_REGEXP) != 0;
   static LENS L;
   for (int pass = 0; pass < 2; pass++)
@@ -186,7 +197,7 @@ int main()
       else if (!strncmp(toks[i], "buf=", 4)) buf = unhex(toks[i] + 4, &buflen);
       else if (!strncmp(toks[i], "code=", 5)) want_code = 1;
       else if (!strncmp(toks[i], "fx=", 3)) want_fx = 1;
-      else if (!strncmp(toks[i], "wfx=", 4)) want_wfx = 1;
+      else if (!strncmp(toks[i], "wfx=", 4)) want_wfx = atoi(toks[i] + 4) == 2 ? 2 : 1;
       else if (!strncmp(toks[i], "atomq=", 6)) atomq = unhex(toks[i] + 6, &atomqlen);
       else if (!strncmp(toks[i], "fl=", 3))
       {
